@@ -259,30 +259,35 @@ theorem dict_key_overflow (ext : Ext) (p : String) (t : IntTy) (v : Validity) (k
 `(dt, n, md)` succeeds, the documented mapping `Spec.interpDT` is defined on `x` and the builder holds exactly its
 previous rows followed by that value: nothing wrapped, truncated, defaulted or dropped.  Hypotheses are those of R2
 (`Props.C01.push_interp`): the state invariant `WFB`, the schema condition `Safe`, `Shape` (the builder is the one
-`build_builder` makes for the field; covers every family except view types and dictionaries) and `noRaw` (no raw
-key/value call streams inside `x`). -/
+`build_builder` makes for the field), `structStreamsAlternate` (every raw key/value call stream inside `x` alternates:
+Map builders refuse the others, struct builders ACCEPT them although the mapping gives them no meaning —
+`Props.C01.struct_stream_needed`, `Props.C01.struct_raw_stored`) and, when `x` contains a raw stream at all, the
+sentinel bound `narrowDT` (fewer than `usize::MAX` fields per struct). -/
 theorem C05_push_ok_exact (ext : Ext) (x : SVal) (b b' : B) (dt : DataType) (n : Bool) (md : Metadata)
-    (hraw : noRaw x = true) (hwf : WFB b) (hsafe : Safe b) (hshape : Shape b dt n md) (h : push ext b x = .ok b') :
+    (hraw : structStreamsAlternate x = true) (hnar : noRaw x = true ∨ narrowDT dt = true)
+    (hwf : WFB b) (hsafe : Safe b) (hshape : Shape b dt n md) (h : push ext b x = .ok b') :
     ∃ lv, interpDT ext dt n md x = .ok lv ∧ dec b' = dec b ++ [lv] := by
-  obtain ⟨_, _, _, lv, hd, hi⟩ := Props.C01.push_interp ext x b b' dt n md hraw hwf hsafe hshape h
+  obtain ⟨_, _, _, lv, hd, hi⟩ := Props.C01.push_interp ext x b b' dt n md hraw hnar hwf hsafe hshape h
   exact ⟨lv, hi, hd⟩
 
 /-- **undefined ⇒ rejected (one push).**  A value the documented mapping does not define for the field (out of range,
 null for a non-nullable field, missing / duplicate field, wrong count, unknown variant, wrong kind …, at any depth) is
 never accepted. -/
 theorem C05_interp_undefined_rejected (ext : Ext) (x : SVal) (b : B) (dt : DataType) (n : Bool) (md : Metadata)
-    (hraw : noRaw x = true) (hwf : WFB b) (hsafe : Safe b) (hshape : Shape b dt n md)
+    (hraw : structStreamsAlternate x = true) (hnar : noRaw x = true ∨ narrowDT dt = true)
+    (hwf : WFB b) (hsafe : Safe b) (hshape : Shape b dt n md)
     (e : Fail) (hu : interpDT ext dt n md x = .error e) : ∀ b', push ext b x ≠ .ok b' := by
   intro b' h
-  obtain ⟨lv, hi, _⟩ := C05_push_ok_exact ext x b b' dt n md hraw hwf hsafe hshape h
+  obtain ⟨lv, hi, _⟩ := C05_push_ok_exact ext x b b' dt n md hraw hnar hwf hsafe hshape h
   rw [hu] at hi
   cases hi
 
 /-- the same for a freshly built builder: `Shape`, `WFB` come from `build_builder` -/
 theorem C05_new_interp_undefined_rejected (ext : Ext) (x : SVal) (path : String) (dt : DataType) (n : Bool)
     (md : Metadata) (b : B) (hc : covered dt = true) (hnew : newDT path dt n md = .ok b) (hsafe : Safe b)
-    (hraw : noRaw x = true) (e : Fail) (hu : interpDT ext dt n md x = .error e) : ∀ b', push ext b x ≠ .ok b' :=
-  C05_interp_undefined_rejected ext x b dt n md hraw (Props.C01.newDT_fresh dt path n md b hnew).1 hsafe
+    (hraw : structStreamsAlternate x = true) (hnar : noRaw x = true ∨ narrowDT dt = true)
+    (e : Fail) (hu : interpDT ext dt n md x = .error e) : ∀ b', push ext b x ≠ .ok b' :=
+  C05_interp_undefined_rejected ext x b dt n md hraw hnar (Props.C01.newDT_fresh dt path n md b hnew).1 hsafe
     (Props.C01.newDT_shape dt path n md b hc hnew) e hu
 
 /-- **ok ⇒ exact (`to_marrow`).**  If `to_marrow` succeeds, EVERY input record has a documented value
@@ -293,7 +298,8 @@ theorem C05_toMarrow_ok_exact (ext : Ext) (fields : List Field) (rows : List SVa
     (hschema : ∀ f ∈ fields, Lemmas.C03.SchemaOKF f)
     (hcov : fields.all Build.coveredF = true)
     (hsafe : ∀ root0, newRoot fields = .ok root0 → Safe root0)
-    (hraw : ∀ x ∈ rows, Build.noRaw x = true)
+    (hraw : ∀ x ∈ rows, Build.structStreamsAlternate x = true)
+    (hnar : (∀ x ∈ rows, Build.noRaw x = true) ∨ Build.narrowRoot fields = true)
     (h : toMarrow ext fields rows = .ok arrs) :
     (∀ x ∈ rows, ∃ lv, interpRow ext fields x = .ok lv) ∧
     ∃ cols : List (String × List LVal),
@@ -302,7 +308,7 @@ theorem C05_toMarrow_ok_exact (ext : Ext) (fields : List Field) (rows : List SVa
       (∀ c ∈ cols, c.2.length = rows.length) ∧
       ∀ (i : Nat) (hi : i < rows.length),
         interpRow ext fields rows[i] = .ok (.struct (LFields.ofList (cols.map fun c => (c.1, c.2.getD i .null)))) := by
-  obtain ⟨_, cols, h1, h2, h3, h4⟩ := Props.C01.C01_build_decode ext fields rows arrs hschema hcov hsafe hraw h
+  obtain ⟨_, cols, h1, h2, h3, h4⟩ := Props.C01.C01_build_decode ext fields rows arrs hschema hcov hsafe hraw hnar h
   refine ⟨?_, cols, h1, h2, h3, h4⟩
   intro x hx
   obtain ⟨i, hi, rfl⟩ := List.getElem_of_mem hx
@@ -313,7 +319,8 @@ whole call fail: no array is returned.  Needs only the hypotheses of R3 (`Props.
 theorem C05_toMarrow_undefined_rejected (ext : Ext) (fields : List Field) (rows : List SVal)
     (hcov : fields.all Build.coveredF = true)
     (hsafe : ∀ root0, newRoot fields = .ok root0 → Safe root0)
-    (hraw : ∀ x ∈ rows, Build.noRaw x = true)
+    (hraw : ∀ x ∈ rows, Build.structStreamsAlternate x = true)
+    (hnar : (∀ x ∈ rows, Build.noRaw x = true) ∨ Build.narrowRoot fields = true)
     (hu : ∃ (i : Nat) (hi : i < rows.length) (e : Fail), interpRow ext fields rows[i] = .error e) :
     ∀ arrs, toMarrow ext fields rows ≠ .ok arrs := by
   intro arrs h
@@ -325,7 +332,7 @@ theorem C05_toMarrow_undefined_rejected (ext : Ext) (fields : List Field) (rows 
     | error e => rw [hr] at hrun; cases hrun
     | ok r0 => exact ⟨r0, rfl⟩
   obtain ⟨root0, h0⟩ := h0
-  obtain ⟨hall, _⟩ := Props.C01.runRows_interp ext fields rows root0 root hcov h0 (hsafe root0 h0) hraw hrun
+  obtain ⟨hall, _⟩ := Props.C01.runRows_interp ext fields rows root0 root hcov h0 (hsafe root0 h0) hraw hnar hrun
   obtain ⟨hl, hg⟩ := Props.C03.All2_get hall
   have := hg i (by rw [hl]; exact hi) hi
   rw [he] at this
